@@ -104,6 +104,27 @@ impl<K: std::fmt::Debug, V: std::fmt::Debug> std::fmt::Debug for HashMap<K, V> {
 }
 
 // ---------------------------------------------------------------------------------------------
+// H6: restart the thread-local id counters (lets a simulator reuse one thread for many runs)
+// ---------------------------------------------------------------------------------------------
+
+thread_local! {
+    static RESET_NODE_IDS: Cell<bool> = const { Cell::new(false) };
+    static RESET_OBSERVER_IDS: Cell<bool> = const { Cell::new(false) };
+}
+
+/// The next node and the next observer created on this thread get id 1 again.
+pub fn reset_ids() {
+    RESET_NODE_IDS.with(|c| c.set(true));
+    RESET_OBSERVER_IDS.with(|c| c.set(true));
+}
+pub(crate) fn take_node_id_reset() -> bool {
+    RESET_NODE_IDS.with(|c| c.replace(false))
+}
+pub(crate) fn take_observer_id_reset() -> bool {
+    RESET_OBSERVER_IDS.with(|c| c.replace(false))
+}
+
+// ---------------------------------------------------------------------------------------------
 // H3: in-bucket tie-break of the recompute heap
 // ---------------------------------------------------------------------------------------------
 
